@@ -178,6 +178,8 @@ pub struct World {
     pub drop_phase_id: Cell<u64>,
     /// >0 while the interpreter provokes a panic it expects (finalize_again inside callbacks)
     pub expected_panics: Cell<u32>,
+    /// C19: yield to other threads after every n-th operation (0 = never)
+    pub yield_every: Cell<u32>,
 }
 
 impl World {
@@ -236,6 +238,7 @@ impl World {
             cb_total: Cell::new(0),
             drop_phase_id: Cell::new(0),
             expected_panics: Cell::new(0),
+            yield_every: Cell::new(0),
         }
     }
 }
